@@ -119,6 +119,14 @@ CheckArch(e) ==
          "arch/" \o FirstBad(e.calls, 1, e.dim))
     /\ V("C18", e, ~ok \/ e.whole.res = "ok", "an accepted architecture does not distill (panic)", "arch/distill-panic")
     /\ V("C18", e, e.invalid_ranges = <<TRUE, TRUE>>, "extract_range accepted an invalid range", "arch/invalid-range")
+    \* every sub-range: accepted iff 0 <= s < e <= n; input shape = shape in front of operator s, output shape = shape after operator e-1
+    /\ V("C18", e, ~ok \/ \A n \in 1..Len(e.ranges) :
+            LET r == e.ranges[n]  nops == Len(e.op_shapes)
+                valid == r.s < r.e /\ r.e <= nops
+                shapeBefore == IF r.s = 0 THEN e.dim ELSE e.op_shapes[r.s]
+            IN IF ~valid THEN r.res = "err"
+               ELSE r.res = "ok" /\ r["in"] = shapeBefore /\ r.out = e.op_shapes[r.e] /\ r.n = r.e - r.s /\ r.shapes = SubSeq(e.op_shapes, r.s + 1, r.e),
+         "extract_range(s, e) has the wrong input / output shape, operators, or accepts / rejects a range wrongly", "arch/range")
     /\ V("C18", e, ~ok \/ e.whole.res # "ok" \/ \A n \in 1..Len(e.splits) :
             LET sp == e.splits[n] IN
             /\ sp.res = "ok" /\ sp.in_a = e.dim /\ sp.in_b = sp.out_a /\ sp.n_a = sp.k /\ sp.n_a + sp.n_b = Len(e.ops)
